@@ -78,12 +78,12 @@ def record(desper, K, seed, n_traces, n_calls):
                 if enabled or qlen + 3 <= K['MaxQ']:
                     cands += [('DeleteImmediate', (rnd.choice(sorted(rows) + ids[:1]),))]
             if 'proc' in acts and procs_all and (enabled or qlen + 2 <= K['MaxQ']):
-                absent = [p for p in procs_all if p not in plist]
-                if absent:
-                    cands += [('AddProcessor', (rnd.choice(absent), rnd.choice(prios)))] * 3
+                cands += [('AddProcessor', (rnd.choice(procs_all), rnd.choice(prios)))] * 3
                 cands += [('RemoveProcessor', (rnd.choice(ptypes),))]
             if 'process' in acts and (enabled or qlen + 3 <= K['MaxQ']):
                 cands += [('Process', (rnd.choice(sorted(K['Dts'])),))] * 3
+                if 'inframe' in acts and plist and not ghosts:
+                    cands += [('ProcessRemover', (1, rnd.choice(plist), rnd.choice(ptypes)))] * 2
                 if 'fault' in acts and not ghosts:
                     if plist:
                         cands += [('ProcessProcFault', (1, rnd.choice(plist)))]
